@@ -680,9 +680,9 @@ func c02History(r *RunCtx, run int) error {
 	if run == 2 { // a chain configured with chunks larger than the default 1024 bytes: honest chunks are then larger too
 		chunk = 2048
 	}
-	params := e.App.StorageKeeper.GetParams(e.Ctx)
+	params := StorageParams(e)
 	params.ProofWindow, params.CheckWindow, params.ChunkSize = pw, cw, chunk
-	e.App.StorageKeeper.SetParams(e.Ctx, params)
+	GovSetStorageParams(e, params)
 	nch := int64(1 + p.Intn(r.Scale(5, 9)))
 	if run == 2 {
 		nch = 2 + p.I64n(2)
@@ -774,12 +774,12 @@ func c02History(r *RunCtx, run int) error {
 		e.At(h, T0.Add(6e9))
 		if h == start+2*pw+1 && p.Chance(1, 3) {
 			// a later parameter change must not affect the windows of the stored file
-			np := e.App.StorageKeeper.GetParams(e.Ctx)
+			np := StorageParams(e)
 			np.ProofWindow, np.CheckWindow = PickOne(p, pws), PickOne(p, cws)
-			e.App.StorageKeeper.SetParams(e.Ctx, np)
+			GovSetStorageParams(e, np)
 			hh.log("SetParams", h, map[string]interface{}{"proof_window": np.ProofWindow, "check_window": np.CheckWindow})
 		}
-		curCW := e.App.StorageKeeper.GetParams(e.Ctx).CheckWindow
+		curCW := StorageParams(e).CheckWindow
 		// ---- begin block: the reward block
 		file, found := hh.file()
 		if !found {
@@ -849,9 +849,9 @@ func c02ChunkSizeChange(r *RunCtx) error {
 		return err
 	}
 	defer e.Close()
-	params := e.App.StorageKeeper.GetParams(e.Ctx)
+	params := StorageParams(e)
 	params.ProofWindow, params.CheckWindow, params.ChunkSize = 5, 5, 8
-	e.App.StorageKeeper.SetParams(e.Ctx, params)
+	GovSetStorageParams(e, params)
 	f, err := c02MakeFile(NewPRNG(7).Bytes(30), 8) // 4 chunks
 	if err != nil {
 		return err
@@ -863,7 +863,7 @@ func c02ChunkSizeChange(r *RunCtx) error {
 		return fmt.Errorf("C02: PostFile: %s", res.Err)
 	}
 	params.ChunkSize = 1
-	e.App.StorageKeeper.SetParams(e.Ctx, params)
+	GovSetStorageParams(e, params)
 	worst := int64(-1)
 	for h := int64(10); h < 40; h++ {
 		e.At(h, T0)
